@@ -1,8 +1,18 @@
 /-
   Driver.C07 — line protocol for determinant and inverse.
 
-    @ <fp|rat> <a>:<rows>,<b>:<cols> <entries>    the logical matrix shown by the input (row-major);
-                                                  a, b are the tensor dimension names
+    @ <fp|rat|i64> <a>:<rows>,<b>:<cols> <entries>   the logical matrix shown by the input (row-major);
+                                                  a, b are the tensor dimension names (i64: exact integers,
+                                                  answered like rat)
+    @ <f64|f32> <shape> <integer entries> [scale10=k] [scale2=k]
+                                                  float case: the matrix is base·10^k·2^k.  Floats are never
+                                                  compared with model values: the answers below are the
+                                                  specification's (presence from the exact base — scaling by a
+                                                  non-zero factor keeps the determinant non-zero,
+                                                  `C07.scaling_keeps_invertibility` — and "both products are the
+                                                  identity to rounding accuracy"):
+                                                  mdet/tdet/minv → some | none, tinv → some(<shape>) | none,
+                                                  mcheck/tcheck → some(approx-id) | none
     mdet via=…      linear_algebra::determinant / Matrix::determinant       → some(v) | none
     minv via=…      linear_algebra::inverse / Matrix::inverse               → some(RxC;e,…) | none
     tdet via=…      determinant_tensor / Tensor / TensorView ::determinant  → some(v) | none
@@ -29,6 +39,8 @@ structure State where
   rows : Nat := 0
   cols : Nat := 0
   elems : Elems := .fp []
+  /-- float case: `elems` holds the exact integer base, answers are specification-level only -/
+  approx : Bool := false
 
 def init : State := {}
 
@@ -91,9 +103,26 @@ def answer (sh : α → String) (names : String × String) (rows cols : Nat) (l 
 
 end Generic
 
+/-- answers for a float case, from the exact base matrix -/
+def answerApprox (names : String × String) (rows cols : Nat) (l : List Rat) (op : String) : String :=
+  match op with
+  | "mdet" => if (determinant (matOf rows cols l)).isSome then "some" else "none"
+  | "tdet" => if (determinantTensor (viewOf rows cols l)).isSome then "some" else "none"
+  | "minv" => showOutcome (fun
+      | some (_ : EasyMl.Matrix Rat) => "some" | none => "none") (inverse (matOf rows cols l))
+  | "tinv" => showOutcome (fun
+      | some (t : Tensor String Rat) => s!"some({showShape t.shape})"
+      | none => "none") (inverseTensor names (viewOf rows cols l))
+  | "mcheck" => showOutcome (fun
+      | some (_ : EasyMl.Matrix Rat) => "some(approx-id)" | none => "none") (inverse (matOf rows cols l))
+  | "tcheck" => showOutcome (fun
+      | some (_ : Tensor String Rat) => "some(approx-id)" | none => "none")
+      (inverseTensor names (viewOf rows cols l))
+  | _ => "bad-op"
+
 def step (s : State) (toks : List String) : State × String :=
   match toks with
-  | ["@", ty, shapeS, entriesS] =>
+  | "@" :: ty :: shapeS :: entriesS :: _opts =>
     match parseShape shapeS with
     | some [(a, r), (b, c)] =>
       let ents := splitComma entriesS
@@ -102,16 +131,22 @@ def step (s : State) (toks : List String) : State × String :=
         match ents.mapM parseFp with
         | some l => ({ names := (a, b), rows := r, cols := c, elems := .fp l }, "ok")
         | none => (s, "bad-op")
-      else if ty = "rat" then
+      else if ty = "rat" || ty = "i64" then
         match ents.mapM parseRat with
         | some l => ({ names := (a, b), rows := r, cols := c, elems := .rat l }, "ok")
+        | none => (s, "bad-op")
+      else if ty = "f64" || ty = "f32" then
+        match ents.mapM parseRat with
+        | some l => ({ names := (a, b), rows := r, cols := c, elems := .rat l, approx := true }, "ok")
         | none => (s, "bad-op")
       else (s, "bad-op")
     | _ => (s, "bad-op")
   | op :: _ =>
     match s.elems with
     | .fp l => (s, answer (fun (x : Fp) => toString x) s.names s.rows s.cols l op)
-    | .rat l => (s, answer showRat s.names s.rows s.cols l op)
+    | .rat l =>
+      if s.approx then (s, answerApprox s.names s.rows s.cols l op)
+      else (s, answer showRat s.names s.rows s.cols l op)
   | _ => (s, "bad-op")
 
 end Driver.C07
